@@ -95,7 +95,7 @@ impl Prop for NestedEnds {
         "nested-ends"
     }
     fn cases(&self, tier: Tier) -> u64 {
-        tier.pick(150_000, 3_000_000)
+        tier.pick(150_000, 1_000_000)
     }
     fn strategy(&self, _tier: Tier) -> BoxedStrategy<NCase> {
         (0u8..5, any::<bool>(), 0u8..3, prop_oneof![2 => Just(0u8), 1 => 1u8..4], any::<bool>(), prop::collection::vec((any::<bool>(), 0u8..4), 0..8))
